@@ -200,6 +200,33 @@ pub fn run(o: &Opts) {
         out.oracle_fail("", &format!("{lang}: findings {:?} / unused-suppression lines {:?}; the comments as written demand {:?} / {:?}; source={}", got, got_unused, want, want_unused, serde_json::to_string(&src).unwrap()),
           json!({"stream": "c14", "lang": lang.to_string(), "source": src, "rules": yamls[..nrules].to_vec()}));
       }
+      // ---- the interactive/update-all view (fixable findings and unused suppressions delivered as `diffs`) reports
+      // exactly the same findings, in source order
+      {
+        let sep = scan.scan(&sg, true);
+        let mut all_sep: Vec<(String, usize)> = vec![];
+        for (r, nms) in &sep.matches {
+          all_sep.extend(nms.iter().map(|nm| (r.id.clone(), nm.range().start)));
+        }
+        let diff_starts: Vec<usize> = sep.diffs.iter().map(|(_, nm)| nm.range().start).collect();
+        all_sep.extend(sep.diffs.iter().map(|(r, nm)| (r.id.clone(), nm.range().start)));
+        let mut all_plain: Vec<(String, usize)> = vec![];
+        for (r, nms) in &res.matches {
+          all_plain.extend(nms.iter().map(|nm| (r.id.clone(), nm.range().start)));
+        }
+        all_sep.sort();
+        all_plain.sort();
+        out.checked();
+        out.count("separate-fix-view:compared");
+        if !sep.diffs.is_empty() {
+          out.count("separate-fix-view:has-diffs");
+        }
+        if all_sep != all_plain || diff_starts.windows(2).any(|w| w[0] > w[1]) {
+          let miss: Vec<_> = all_plain.iter().filter(|w| !all_sep.contains(w)).take(5).collect();
+          out.oracle_fail("", &format!("{lang}: the scan that separates fixable findings reports {} findings (diff starts {:?}), the plain scan {}; missing {:?}; source={}", all_sep.len(), diff_starts, all_plain.len(), miss, serde_json::to_string(&src).unwrap()),
+            json!({"stream": "c14-separate-fix", "lang": lang.to_string(), "source": src, "rules": yamls[..nrules].to_vec()}));
+        }
+      }
       if !sampled && !cmts.is_empty() {
         sampled = true;
         out.sample(json!({"lang": lang.to_string(), "source": src, "findings": got.len(), "unused": got_unused}));
@@ -256,8 +283,80 @@ fn gen_comment(rng: &mut Rng, cmt: &str) -> (String, Option<Option<Vec<String>>>
 /// Expected, per file and per line, from the property text: a finding is silenced iff a comment governs its line
 /// and names its rule or nothing; a comment is reported unused iff it silenced nothing — also in a file on which
 /// no rule runs at all.
+/// `sg scan -U` on a project whose only rule has a fix: unsilenced findings are rewritten, silenced ones are left
+/// alone with their comment, and every suppression comment that silenced nothing is removed - wherever it stands
+/// relative to the rewritten findings.
+fn cli_update_all(o: &Opts, out: &mut Out, rng: &mut Rng) {
+  use crate::cli::{fresh_dir, sg};
+  let rounds = if o.thorough { 10 } else { 4 };
+  for round in 0..rounds {
+    let p = fresh_dir(&o.out, &format!("upd_{round}"));
+    std::fs::create_dir_all(p.join("rules")).unwrap();
+    std::fs::write(p.join("sgconfig.yml"), "ruleDirs: [rules]\n").unwrap();
+    std::fs::write(p.join("rules/no-foo.yml"), "id: no-foo\nlanguage: TypeScript\nseverity: warning\nmessage: no foo\nrule:\n  pattern: foo($$$A)\nfix: oof($$$A)\n").unwrap();
+    let mut wants = vec![];
+    for f in 0..3 {
+      let (mut text, mut want) = (String::new(), String::new());
+      let n = 2 + rng.below(5);
+      for i in 0..n {
+        // comment: None, or Some(silences no-foo?)
+        let mut cm = |rng: &mut Rng| -> Option<(&'static str, bool)> {
+          match rng.below(6) {
+            0 => Some(("// ast-grep-ignore", true)),
+            1 => Some(("// ast-grep-ignore: no-foo", true)),
+            2 => Some(("// ast-grep-ignore: other-rule", false)),
+            _ => None,
+          }
+        };
+        let own = cm(rng);
+        let trailing = cm(rng);
+        let is_foo = rng.chance(1, 2);
+        let silenced = is_foo && (own.map(|c| c.1).unwrap_or(false) || trailing.map(|c| c.1).unwrap_or(false));
+        if let Some((c, sil)) = own {
+          text.push_str(c);
+          text.push('\n');
+          if is_foo && sil {
+            want.push_str(c);
+          }
+          want.push('\n');
+        }
+        let stmt = if is_foo { format!("foo({i});") } else { format!("bar({i});") };
+        let stmt_after = if is_foo && !silenced { format!("oof({i});") } else { stmt.clone() };
+        text.push_str(&stmt);
+        want.push_str(&stmt_after);
+        if let Some((c, sil)) = trailing {
+          text.push(' ');
+          text.push_str(c);
+          want.push(' ');
+          if is_foo && sil {
+            want.push_str(c);
+          }
+        }
+        text.push('\n');
+        want.push('\n');
+      }
+      let name = format!("f{f}.ts");
+      std::fs::write(p.join(&name), &text).unwrap();
+      wants.push((name, text, want));
+    }
+    let r = sg(&p, &["scan", "-U"], None, 60);
+    out.checked();
+    out.count("cli-update-all:runs");
+    for (name, before, want) in wants {
+      let got = std::fs::read_to_string(p.join(&name)).unwrap_or_default();
+      out.nontrivial(&before);
+      if r.timed_out || got != want {
+        out.oracle_fail("", &format!("sg scan -U with one fixing rule: {name} was {before:?}, is now {got:?}; rewriting the unsilenced findings and removing the suppressions that silenced nothing gives {want:?}"),
+          json!({"stream": "c14-cli-update", "dir": p.to_string_lossy(), "file": name, "before": before, "stdout": r.stdout.chars().take(400).collect::<String>()}));
+        break;
+      }
+    }
+  }
+}
+
 fn cli_projects(o: &Opts, out: &mut Out, rng: &mut Rng) {
   use crate::cli::{fresh_dir, json_lines, sg};
+  cli_update_all(o, out, rng);
   let rounds = if o.thorough { 12 } else { 4 };
   for round in 0..rounds {
     let p = fresh_dir(&o.out, &format!("proj_{round}"));
